@@ -10,9 +10,9 @@ from common import pmap, scratch, rng_for, save_replay, write_file
 LEVEL = "exploration"
 
 
-def make_input(rng):
+def make_input(rng, hbfs=None):
     for _ in range(30):
-        s = gen.generate(rng.getrandbits(40), n_links=rng.choice([4, 6, 8, 12]), hbfs=rng.choice([2, 3]), max_pages=2, hits=rng.choice(["none", "few"]),
+        s = gen.generate(rng.getrandbits(40), n_links=rng.choice([4, 6, 8, 12]) if hbfs is None else 4, hbfs=hbfs or rng.choice([2, 3]), max_pages=2, hits=rng.choice(["none", "few"]),
                          barrels=[rng.choice(["IB", "ML", "OL"])] if rng.random() < 0.5 else ["IB", "ML", "OL"])
         # several errors at the same offset on many links: sanity + running error on one RDH, two state errors on one TDH
         for lp in s.pkts:
@@ -49,8 +49,23 @@ def one_case(args):
     exe, wd, seed, case, tier, K = args
     rng = rng_for(seed, case)
     out = dict(case=case, viol=None, runs=0, orders=0, errors=0, key=None, sample=None, same_offset=0)
-    s = make_input(rng)
+    # variants (stratified): "trunc" = the input ends inside the payload of its last packet, whose RDH also carries errors (messages of the reader and of a
+    # validator about the same packet); "filter" = a link filter plus an (ignored) -o next to the check, with more than one batch of matching packets
+    variant = {1: "trunc", 2: "filter"}.get(case % 6, "plain")
+    s = make_input(rng, hbfs=rng.choice([40, 70]) if variant == "filter" else None)
+    if variant == "trunc":
+        l, i = s.order[-1]
+        last = s.pkts[l][i]
+        last.f["pages_counter"] = (last.f["pages_counter"] + 3) & 0xFFFF
+        last.f["bc"] = 0xFFF
     data = s.serialize()
+    if variant == "trunc":
+        w = R.walk(data)
+        plen = w[-1].payload_len
+        if plen >= 2:
+            data = data[:len(data) - rng.randrange(1, plen)]
+        else:
+            variant = "plain"
     path = os.path.join(wd, "c%d.raw" % case)
     write_file(path, data)
     # stratified: half of the cases in stave mode (the only mode where several kinds of statistics are merged from many threads)
@@ -58,6 +73,8 @@ def one_case(args):
     opts = [[], [], [], ["-m"]][case % 4]
     fmt = ["json", "toml"][(case // 2) % 2]
     argv = [path] + (obs.MODES[mode] if mode in obs.MODES else mode.split() + rng.choice([[], ["-d"]])) + opts
+    if variant == "filter":
+        argv += ["-f", str(rng.choice(s.links).link_id), "-o", os.path.join(wd, "c%d.ignored" % case)]
     try:
         ref = obs.run(exe, argv, workdir=wd, stats=fmt, tag="c%d" % case)
         if ref.abnormal() or ref.stats is None:
@@ -72,10 +89,13 @@ def one_case(args):
         ref_sig = ([m.text for m in ref.displayed_errors()], norm_stdout(ref.stdout), ref.stats_raw, ref.rc)
         orders = set()
         for k in range(K):
-            prof = k % 4
-            sched = {0: "%d:200" % (seed * 1000 + case * 50 + k), 1: "%d:50" % (seed * 1000 + case * 50 + k),
-                     2: "%d:100:4:%d:3" % (seed * 1000 + case * 50 + k, rng.choice([5, 20])),      # stall validators at their first packets
-                     3: "%d:100:7:%d:2" % (seed * 1000 + case * 50 + k, rng.choice([10, 40]))}[prof]   # stall the collector
+            prof = k % 6
+            sd = seed * 1000 + case * 100 + k
+            sched = {0: "%d:200" % sd, 1: "%d:50" % sd,
+                     2: "%d:100:4:%d:3" % (sd, rng.choice([5, 20])),      # stall validators at their first packets
+                     3: "%d:100:7:%d:2" % (sd, rng.choice([10, 40])),     # stall the collector
+                     4: "%d:100:6:%d:3" % (sd, rng.choice([10, 40])),     # stall the forwarder of the reader's statistics / errors
+                     5: "%d:100:%d:%d:2" % (sd, rng.choice([2, 9, 1]), rng.choice([10, 40]))}[prof]   # stall the analysis thread / dispatcher / reader
             trace = os.path.join(wd, "c%d_%d.trace" % (case, k))
             r = obs.run(exe, argv, workdir=wd, stats=fmt, env={"FASTPASTA_VERIF_SCHED": sched, "FASTPASTA_VERIF_TRACE": trace}, tag="c%d" % case)
             out["runs"] += 1
@@ -99,8 +119,12 @@ def one_case(args):
         out["orders"] = len(orders)
     finally:
         os.unlink(path)
-    out["key"] = (mode, tuple(opts), fmt, len(s.links))
-    out["sample"] = "%d links, %d errors, %d offsets carrying several errors, check %s %s, %d distinct arrival orders in %d runs" % (len(s.links), out["errors"], out["same_offset"], mode, opts, out["orders"], out["runs"])
+    for f in (os.path.join(wd, "c%d.ignored" % case),):
+        if os.path.exists(f):
+            os.unlink(f)
+    out["key"] = (mode, tuple(opts), fmt, len(s.links), variant)
+    out["variant"] = variant
+    out["sample"] = ("" if variant == "plain" else "[%s] " % variant) + "%d links, %d errors, %d offsets carrying several errors, check %s %s, %d distinct arrival orders in %d runs" % (len(s.links), out["errors"], out["same_offset"], mode, opts, out["orders"], out["runs"])
     return out
 
 
@@ -116,7 +140,8 @@ def run(res):
         tot_orders += o["orders"]
         if o["viol"]:
             res.violation(*o["viol"])
-        if (o["orders"] >= 3 and o["errors"] > 20 and o["same_offset"] > 0) or (o["key"] and o["key"][0].startswith("view") and o["runs"]):
+        if (o["orders"] >= 3 and o["errors"] > 20 and o["same_offset"] > 0) or (o["key"] and o["key"][0].startswith("view") and o["runs"]) or (
+                o.get("variant") == "trunc" and o["orders"] >= 2) or (o.get("variant") == "filter" and o["runs"] >= 6):
             explored += 1
             res.nontrivial.add(o["case"])
         elif o["key"]:
@@ -124,8 +149,9 @@ def run(res):
         if o["sample"]:
             res.sample(o["sample"], cap=8)
     res.extra.update(cases=n, runs_per_case=K, cases_explored=explored, distinct_arrival_orders_total=tot_orders)
-    res.rule = ("multi-link inputs (4..12 links) with several errors at the same offset and > 20 errors in total x {all, all its, all its-stave} x {-, -m} x {JSON, TOML}; each run "
-                "K times under distinct H1 schedules (yield/sleep <= 200 us, stalled validators, stalled collector) and compared with the unperturbed run; "
+    res.rule = ("multi-link inputs (4..12 links) with several errors at the same offset and > 20 errors in total x {all, all its, all its-stave} x {-, -m} x {JSON, TOML}, plus stratified variants: input ending inside the "
+                "last payload whose RDH also has errors, and a link filter with an (ignored) -o next to the check on > 100 matching packets; each run "
+                "K times under distinct H1 schedules (yield/sleep <= 200 us, stalled validators / collector / statistics forwarder / analysis thread / reader) and compared with the unperturbed run; "
                 "non-trivial = case with >= 3 distinct pre-sort arrival orders observed (H2), > 20 errors and same-offset errors")
     res.min_nontrivial = 6 if quick else 30
     res.assumptions = ["no error cap, no fatal input error (excluded by the statement)", "perturbation only at existing thread hand-off points"]
